@@ -47,6 +47,7 @@ type Exec struct {
 	abstracted map[string]bool
 	inlined  map[string]bool
 	trustedUsed map[string]bool
+	usedKeys    map[string]bool // keys of the contracts applied at call / go sites (the proof depends on them)
 	writesClasses map[string]bool
 	lockMode bool
 	callOrd  map[string]int
